@@ -197,7 +197,7 @@ Theorem phase2_ns_total_all : forall p g,
   ns_wf g -> acyclic g -> connected g -> (2 <= length (g_N g))%nat -> ns_budget p g <= 100000 ->
   exists g', phase2 NetworkSimplex p g = Ok g'.
 Proof.
-  intros p g W Hac Hc Htwo Hmax. unfold phase2.
+  intros p g W Hac Hc Htwo Hmax. unfold phase2, assign_layers.
   assert (Hne : g_N g <> []) by (intros E; rewrite E in Htwo; cbn in Htwo; lia).
   assert (E1 : Nat.eqb (length (g_N g)) 1 = false) by (apply Nat.eqb_neq; lia).
   rewrite E1.
